@@ -132,6 +132,7 @@ struct Op {
     int fork_point = 0;
     ExecOp child_ex;
     bool grandchild = false;
+    bool roundtrip = false;                 // CliConf: write the reported values back into the config file and report again
     // Mutate: JSON patch merged into the world
     J patch;
     J to_json() const;
@@ -212,6 +213,7 @@ struct RunResult {
     int blocked_on_mutex = 0;
     J child;                                // ForkExec: what the child reported
     std::map<std::string, long> counters;   // probes and fault-fire counts
+    J cli_conf2;                            // CliConf round trip: second report
     J cli_conf;                             // CliConf: option values reported by the library's own API
     uint64_t hash = 0;                      // normalised history hash
 };
